@@ -185,3 +185,46 @@ def h_frames(c):
         cls = c.const_of(q)
         for k, v in cls.attrs.items():
             c.ensure("frame[%s].class_attribute_%s_is_immutable" % (cls.name, k), not isinstance(v, (list, dict, set)) and type(v).__name__ not in ("SetVal", "ByteArr"), kind="frame")
+
+
+ALL_MODULES = ["tlexport.main", "tlexport.session", "tlexport.decryptor", "tlexport.key_derivator", "tlexport.output_builder", "tlexport.packet",
+               "tlexport.tlsrecord", "tlexport.keylog_reader", "tlexport.checksums", "tlexport.cipher_suite_parser", "tlexport.dpkt_dsb",
+               "tlexport.quic.quic_session", "tlexport.quic.quic_dissector", "tlexport.quic.quic_frame", "tlexport.quic.quic_decode",
+               "tlexport.quic.quic_key_generation", "tlexport.quic.quic_decryptor", "tlexport.quic.quic_output_builder",
+               "tlexport.quic.quic_tls_parser", "tlexport.quic.quic_packet"]
+
+
+@harness(["C18"], "determinism.no_ambient_reads", functions=[])
+def h_ambient(c):
+    """FRAME obligation (syntactic): no function of the export path reads the clock, the environment, random
+    numbers, object identities/hashes or the working directory"""
+    if c.native:
+        return
+    from pyvc import frames
+    import ast
+    for m in ALL_MODULES:
+        mi = c.I.module(m)
+        for node in ast.walk(mi.tree):
+            if isinstance(node, ast.FunctionDef):
+                bad = sorted(frames.reads_ambient(node))
+                c.ensure("frame[%s.%s].no_ambient_state" % (m.split(".")[-1], node.name), not bad, kind="frame")
+
+
+@harness(["C09", "C04"], "keylog.sessions_share_the_runs_keylog", functions=[SE + ".__init__", QS + ".__init__"], cases=[("tls",), ("quic",)])
+def h_alias(c, kind):
+    """a session keeps the run's key list ITSELF (not a snapshot): secrets from a DSB that appears later in the capture
+    are visible when the session derives its keys; the list is not modified by the constructor"""
+    if c.native:
+        return
+    keylog = [c.opaque("k0")]
+    pkt = c.obj("tlexport.packet.Packet", ipv6_packet=False, ip_src=c.bytes("ip_src", length=4), ip_dst=c.bytes("ip_dst", length=4),
+                sport=c.int("sport", 0, 65535), dport=c.int("dport", 0, 65535), ethernet_src=c.bytes("es", length=6),
+                ethernet_dst=c.bytes("ed", length=6), seq=c.int("seq", 0, 2 ** 32 - 1), tls_data=c.bytes("data", min_len=1), timestamp=1.0)
+    if kind == "tls":
+        out = c.new(SE, pkt, [443], keylog, {}, True, False)
+    else:
+        out = c.new(QS, pkt, [443], keylog, {}, True)
+    c.ensure("no_raise", out.exc is None, kind="raises")
+    if out.exc is None:
+        c.ensure("same_list_object", c.get(out.value, "keylog") is keylog)
+        c.ensure("list_untouched", len(keylog) == 1)
